@@ -137,7 +137,9 @@ func c13RunRound(c c13Round) (msg string) {
 	}()
 	maint := hnsw.DefaultMaintenanceConfig()
 	maint.ArenaCompaction.Enabled = false
-	if err := e.VCreate("main", distance.Euclidean, 8, 40, distance.Float32, "english", &maint, nil, nil); err != nil {
+	// the main index has an auto-link rule: adds and batches that carry the field go on to VLink after their own apply step
+	autoLinks := []hnsw.AutoLinkRule{{MetadataField: "owner", RelationType: "owned_by", CreateNode: true}}
+	if err := e.VCreate("main", distance.Euclidean, 8, 40, distance.Float32, "english", &maint, autoLinks, nil); err != nil {
 		return "harness: " + err.Error()
 	}
 	for i, sid := range c13Shared {
